@@ -1120,6 +1120,10 @@ func (f *frame) mulPattern(x *ssa.BinOp, a, b, res Expr) Expr {
 		den := f.val(m).e
 		r := t.havocTemp("rem", SInt, nil)
 		t.cur.Assume(Implies(IGt(den, IntLit(0)), And(ILe(IntLit(0), r), ILt(r, den), ILe(r, num))))
+		// r is the remainder of this very division: num == den * (num / den) + r
+		if q := f.val(bo).e; q != nil {
+			t.cur.Assume(Implies(IGt(den, IntLit(0)), Eq(num, IAdd(IMul(den, q), r))))
+		}
 		return ISub(num, r), true
 	}
 	if e, ok := try(x.X, x.Y); ok {
